@@ -47,6 +47,11 @@ Theorem C20_flusher_not_blocked_after_request : forall cap s,
   req s = true -> fp s <> Done -> exists l s', flusher_label l /\ step cap s l = Some s'.
 Proof. exact FlushProofs.flusher_not_blocked_after_request. Qed.
 
+(* the tie: every visible trace of the model, under every schedule, is accepted by the specification machine
+   that validates the implementation's recorded traces (so a rejected trace is not a behaviour of the model) *)
+Theorem C20_trace_validation_sound : forall cap ls s, run cap init ls = Some s -> accepts (visible ls) = true.
+Proof. exact FlushProofs.visible_trace_accepted. Qed.
+
 Print Assumptions C20_flush_complete.
 Print Assumptions C20_written_once.
 Print Assumptions C20_no_write_after_ack.
@@ -55,3 +60,4 @@ Print Assumptions C20_fifo_real_time.
 Print Assumptions C20_write_was_logged.
 Print Assumptions C20_conservation.
 Print Assumptions C20_flusher_not_blocked_after_request.
+Print Assumptions C20_trace_validation_sound.
